@@ -2,7 +2,7 @@
    Only statements, [exact]s and Print Assumptions live here. *)
 From NDN Require Import Base.Prelude Base.Text Model.TlvVar Model.Name Spec.NdnOrder.
 From NDN Require Import Proofs.TlvVarProofs Proofs.TlvVarBridge Proofs.NameWire Proofs.NameOrder
-  Proofs.NameUri Proofs.NameUriName Proofs.NameNormalize Proofs.ConstsNameAgree.
+  Proofs.NameUri Proofs.NameUriName Proofs.NameNormalize Proofs.ConstsNameAgree Proofs.NameBuild.
 Local Open Scope N_scope.
 
 (* wire: decode (encode n) = n, for any number of components, any types, any value lengths *)
@@ -63,6 +63,26 @@ Print Assumptions C09_order.
 Theorem C09_varnum_roundtrip v r : v < two64 -> tl_dec (tl_enc v ++ r) = Ok (v, tl_size v).
 Proof. exact (tl_dec_enc v r). Qed.
 Print Assumptions C09_varnum_roundtrip.
+
+(* components BUILT from a value and a type number (from_bytes / from_hex; from_number through the shortest
+   big-endian value): for every legal type 1..65535 and every value, the result is Type, Length, Value in shortest form
+   and its type and value read back; every other type number is refused *)
+Theorem C09_built_component t v :
+  0 < t <= 65535 -> N.of_nat (length v) < two64 ->
+  comp_from_bytes v (Z.of_N t) = Ok (comp_enc t v) /\
+  comp_get_type (comp_enc t v) = Ok t /\ comp_get_value (comp_enc t v) = Ok v.
+Proof. exact (built_component t v). Qed.
+Print Assumptions C09_built_component.
+
+Theorem C09_built_component_refused v (t : Z) : (t <= 0 \/ 65535 < t)%Z -> comp_from_bytes v t = Err EValue.
+Proof. exact (built_component_refused v t). Qed.
+
+Theorem C09_built_number (n t : N) :
+  0 < t <= 65535 -> n < two64 ->
+  exists b, nni_enc_r n = Ok b /\ comp_from_number (Z.of_N n) t = Ok (comp_enc t b) /\
+            comp_get_type (comp_enc t b) = Ok t.
+Proof. exact (built_number n t). Qed.
+Print Assumptions C09_built_number.
 
 (* T1/T2 ties re-established on this run *)
 Theorem C09_tie_charset c : in_charset c = existsb (N.eqb c) Generated.ConstsName.charset_codes.
